@@ -336,6 +336,15 @@ func (g *c10Gen) intExpr(d int, vars []c10Var) *c10Ex {
 	case 6:
 		return g.singleExpr(c10TInt, d, vars)
 	case 7:
+		if g.intn(3, "reccall") == 0 {
+			// a self-recursive helper; the argument is clamped so that the recursion stays shallow
+			name, mod := "down", int64(40)
+			if g.coin("recsum") {
+				name, mod = "sumto", 10
+			}
+			arg := &c10Ex{Op: "bin", T: c10TInt, Sym: "%", A: g.expr(c10TInt, d, vars), B: &c10Ex{Op: "lit", T: c10TInt, Lit: c10Int(mod)}}
+			return &c10Ex{Op: "attr", T: c10TInt, Name: "o", A: &c10Ex{Op: "call", T: c10TInc, Name: name, Args: []*c10Ex{arg}}}
+		}
 		return &c10Ex{Op: "attr", T: c10TInt, Name: "o", A: &c10Ex{Op: "call", T: c10TInc, Name: "inc", Args: []*c10Ex{g.expr(c10TInt, d, vars)}}}
 	case 8:
 		if as := g.attrSources(c10TInt, vars); len(as) > 0 {
